@@ -16,6 +16,23 @@ chk("C01", "exploration", "deterministic simulation: seeded histories x configur
     "Seeded search over histories (set/remove/commit/discard/reopen/load/prune/rollback) and configurations (cache, fast index, flush threshold, sync, initial version, backend); after every step every read of the working state and of every retained version is compared with the versioned-map model R1. Evidence of absence within the stated bounds, not a proof.",
     "Trusts R1 (ref/vmap.go), the SimDB storage model (atomic ordered batch writes) and Go's runtime. Keys non-empty.", "DESIGN.md §5 C01")
 
+T = "deterministic simulation: seeded histories x configurations executed on the real tree over a simulated disk, "
+N = "Trusts the reference models under /verif/ref, the SimDB storage model (atomic, totally ordered batch writes), the Go runtime. Sampled histories: evidence within the stated bounds, not a proof."
+chk("C02", "exploration", T + "differential against an independent IAVL+ implementation (R2) after every step, read-free twin",
+    "Seeded search over write histories with reopen/prune/rollback/export-import points and interleaved bundles of read-only calls (incl. proofs on the working tree); every Hash/WorkingHash/commit hash/per-version hash is compared with R2, an independent implementation of the documented IAVL+ rules that never sees reads, reopenings or pruning.", N, "DESIGN.md §5 C02")
+chk("C03", "exploration", T + "ICS-23 verification of every proof against the reference root plus negative cross-checks",
+    "For every reached state (histories x restarts x pruning x configurations) every probe key's proof is verified with the ics23 library against R2's root hash, neighbours are compared with R1, error cases and negative cross-checks (other value/key/claim/root) are exercised. No fault or schedule dimension exists for this property; the simulator contributes the reachable states.", N + " ics23 verifier trusted. Empty values excluded (ICS-23 cannot prove them).", "DESIGN.md §5 C03")
+chk("C07", "exploration", T + "fast-path vs tree-walk vs model after every step; raw audit of the f/m key spaces on the simulated disk with an independent codec",
+    "Histories in which every (re)open independently chooses fast index on/off and the load target; with the index enabled every read path is compared with R1 after every step and the raw index entries and label are decoded from the simulated disk after every commit/open/rollback/import.", N, "DESIGN.md §5 C07")
+chk("C08", "exploration", T + "exhaustive bound-set enumeration per reached state on all three iterator implementations and the callback forms",
+    "For sampled states of seeded histories the full (start,end,direction) cross product of a bound set is iterated through every iteration interface and compared with R1's range incl. Domain/termination/Error/stop points. No fault or schedule dimension; faults during iteration are C17, concurrency C06.", N, "DESIGN.md §5 C08")
+chk("C11", "exploration", T + "shape invariants vs R2 after every step; storage reads per lookup counted at the storage seam on a cache-less restart",
+    "Ascending/descending/alternating/random insertion orders with removals; Height/Size vs R2 and the AVL bound after every step; rank/select inverse; per-lookup count of stored nodes read measured by the simulated disk with cache size 0.", N, "DESIGN.md §5 C11")
+chk("C12", "exploration", T + "conservation audit: full scan of the simulated disk decoded by an independent codec vs reachability from the model's retained versions after every structural step",
+    "After every commit/prune/rollback/reopen/import the raw disk is decoded and the stored node identities are compared with the union of R2's reachable sets (no missing, extra or duplicate node), child links, root markers, (v,0)/(v,1) exclusivity, fast index.", N, "DESIGN.md §5 C12")
+chk("C14", "exploration", T + "version-API audit for every version number 0..latest+1 after every structural step, live and on a freshly opened handle",
+    "Histories with no-op commits, tiny trees, pruning, rollback, re-opening at older versions and identical/different re-commits; VersionExists/AvailableVersions/GetImmutable/LoadVersion/GetVersioned/GetLatestVersion vs R1's contiguous range before and after a clean restart; commit numbering and re-commit semantics in the step oracle.", N, "DESIGN.md §5 C14")
+
 NOT_YET = {
 }
 
